@@ -591,22 +591,24 @@ func r09_7(c *RC) {
 			continue
 		}
 		found := false
-		instrs(fn, func(_ *ssa.BasicBlock, _ int, in ssa.Instruction) {
-			bo, ok := in.(*ssa.BinOp)
-			if !ok {
-				return
-			}
-			switch bo.Op {
-			case token.GTR, token.LEQ, token.LSS, token.GEQ:
-			default:
-				return
-			}
-			for _, v := range []ssa.Value{bo.X, bo.Y} {
-				if k, ok := constInt(v); ok && k == 1024 {
-					found = true
+		for _, f := range withHelpers(p, fn, 2) {
+			instrs(f, func(_ *ssa.BasicBlock, _ int, in ssa.Instruction) {
+				bo, ok := in.(*ssa.BinOp)
+				if !ok {
+					return
 				}
-			}
-		})
+				switch bo.Op {
+				case token.GTR, token.LEQ, token.LSS, token.GEQ:
+				default:
+					return
+				}
+				for _, v := range []ssa.Value{bo.X, bo.Y} {
+					if k, ok := constInt(v); ok && k == 1024 {
+						found = true
+					}
+				}
+			})
+		}
 		if found {
 			c.OK("limit@"+fname, fn.Pos(), "compares against 1024")
 		} else {
